@@ -142,12 +142,25 @@ def check_case(case):
                         mrpf.Multi_Range_Potential_Form_Deriv if any_d1 else mrpf.Multi_Range_Potential_Form)
             if type(obj) is not want_cls:
                 v.append(("api:class", "got %s want %s" % (type(obj).__name__, want_cls.__name__)))
-            res = []
-            for r in pts:
-                val = obj(r)
-                d1 = obj.deriv(r) if hasattr(obj, "deriv") else None
-                d2 = obj.deriv2(r) if hasattr(obj, "deriv2") else None
-                res.append((val, d1, d2))
+            def probe(r):
+                return (obj(r), obj.deriv(r) if hasattr(obj, "deriv") else None,
+                        obj.deriv2(r) if hasattr(obj, "deriv2") else None)
+            res = [probe(r) for r in pts]
+            # the answer at r may not depend on what the same object was asked before: repeat the probes
+            # in descending and in an interleaved order
+            if pi < 2:
+                n_ = len(pts)
+                for order_name, order in (("descending", range(n_ - 1, -1, -1)),
+                                          ("interleaved", [i for k in range((n_ + 1) // 2) for i in (n_ - 1 - k, k)])):
+                    for i in order:
+                        again = probe(pts[i])
+                        if again != res[i]:
+                            v.append(("api:history_dependent", "evaluating the same object in %s order: r=%r gives %r, "
+                                      "in ascending order it gave %r; ranges=%r" % (order_name, pts[i], again, res[i],
+                                                                                   [(g["m"], g["s"]) for g in rgs])))
+                            break
+                    if v and v[-1][0] == "api:history_dependent":
+                        break
         except Exception as e:
             v.append(("api:exception:%s" % type(e).__name__, "perm %r: %r" % (perm, e)))
             break
